@@ -217,6 +217,9 @@ theorem SameCore.step {a b : Cache K V} (h : SameCore a b) (op : Op K V) :
   | ne o =>
     have : a.eqArg o = b.eqArg o := by cases o <;> simp [Cache.eqArg, h.d]
     simp only [C02.step, this]; exact ⟨h, OutCore.same _⟩
+  | updateFail l => exact ⟨h.setAll l, OutCore.same _⟩
+  | eqOther => exact ⟨h, OutCore.same _⟩
+  | neOther => exact ⟨h, OutCore.same _⟩
 
 theorem SameCore.run {a b : Cache K V} (h : SameCore a b) (ops : List (Op K V)) :
     SameCore (run a ops) (run b ops) ∧ (outs a ops).map Out.shape = (outs b ops).map Out.shape := by
